@@ -5,7 +5,7 @@
     of each byte first). *)
 From Coq Require Import ZArith List Bool.
 From Low Require Import Lib.Bits Lib.BitSeq Lib.Lex Lib.Bytes Model.Sigbits Spec.SigbitsSpec
-  Proofs.SigbitsFirstDiff Proofs.SigbitsCountPrefixes.
+  Proofs.SigbitsFirstDiff Proofs.SigbitsCountPrefixes Proofs.SigbitsMeaning.
 Import ListNotations.
 Open Scope Z_scope.
 
@@ -17,6 +17,24 @@ Theorem C16_FirstDiffBits : forall keys,
   keys <> [] -> keys_ok keys -> FirstDiffBits keys = Some (spec_FirstDiffBits keys).
 Proof. exact FirstDiffBits_exact. Qed.
 Print Assumptions C16_FirstDiffBits.
+
+(** the specification value in the words of the property: the bits before position d agree and bit d
+    is the first at which the keys differ, unless a key ends there (d = 8*min(len)) *)
+Theorem C16_spec_first_diff_bit_meaning : forall a b,
+  let d := first_diff_bit a b in
+  0 <= d <= 8 * Z.min (zlen a) (zlen b) /\
+  firstn (Z.to_nat d) (msb_bits a) = firstn (Z.to_nat d) (msb_bits b) /\
+  (d < 8 * Z.min (zlen a) (zlen b) ->
+   nth (Z.to_nat d) (msb_bits a) false <> nth (Z.to_nat d) (msb_bits b) false).
+Proof. exact first_diff_bit_meaning. Qed.
+Print Assumptions C16_spec_first_diff_bit_meaning.
+
+(** ... and it is 8*min(len) exactly when one key is a byte-prefix of the other *)
+Theorem C16_spec_first_diff_bit_prefix : forall a b, bytes_ok a -> bytes_ok b ->
+  first_diff_bit a b = 8 * Z.min (zlen a) (zlen b) <->
+  (firstn (length a) b = a \/ firstn (length b) a = b).
+Proof. exact first_diff_bit_prefix. Qed.
+Print Assumptions C16_spec_first_diff_bit_prefix.
 
 (** non-vacuity: a shared prefix of 9 bytes (crosses the 8-byte chunking), a key followed by
     itself + NUL, the empty key *)
